@@ -147,6 +147,7 @@ def results_key(repo, tier):
                              os.path.join(VERIF, "witness"), os.path.join(HERE, "tmpl/src"), os.path.join(VERIF, "tables")]).encode())
     h.update(tier.encode())
     h.update(os.environ.get("VERIF_ONLY_CONFIGS", "").encode())
+    h.update(os.environ.get("VERIF_SEED", "").encode())
     h.update(os.path.abspath(repo).encode())
     return h.hexdigest()[:24]
 
@@ -182,7 +183,8 @@ def get_results(repo, tier, force=False):
     rdir = os.path.join(VERIF, ".cache", "results")
     os.makedirs(rdir, exist_ok=True)
     path = os.path.join(rdir, key + ".json")
-    lock = open(os.path.join(rdir, "lock-" + tier), "w")
+    # one lock for both tiers: the witness base build and the specimen scratch copies are shared
+    lock = open(os.path.join(rdir, "lock-compute"), "w")
     fcntl.flock(lock, fcntl.LOCK_EX)
     try:
         if os.path.exists(path) and not force:
